@@ -214,6 +214,7 @@ func (fm *Server) Init(ctx context.Context, req *pb.InitRequest) (*pb.Response, 
 	if err != nil {
 		return &pb.Response{}, err
 	}
+	fs = verifWrapFS(fs, fm.root, fm.config)
 	fm.curFs = fs
 
 	err = fm.restoreFuseInfo(ctx)
